@@ -105,6 +105,40 @@ def space_size(scen):
     return config_space_size(build_space(scen))
 
 
+def effective_domain_size(spec):
+    """Number of distinct values a domain can produce (None = infinite); independent of the library."""
+    import math
+
+    k = spec[0]
+    if k == "const":
+        return 1
+    if k in ("choice", "ordinal"):
+        return len(set(map(repr, spec[1])))
+    if k in ("randint", "lograndint"):
+        return spec[2] - spec[1] + 1
+    if k in ("finrange", "logfinrange"):
+        return spec[3]
+    if k in ("quniform", "qloguniform"):
+        lo, hi, q = spec[1], spec[2], spec[3]
+        vals = {round(round(x / q) * q, 9) for x in (lo + i * (hi - lo) / 4000.0 for i in range(4001))}
+        vals = {min(max(v, lo), hi) for v in vals}
+        return len(vals)
+    if k == "qrandint":
+        lo, hi, q = spec[1], spec[2], spec[3]
+        return len({int(round(x / q) * q) for x in range(lo, hi + 1) if lo <= int(round(x / q) * q) <= hi})
+    return None
+
+
+def effective_space_size(scen):
+    n = 1
+    for name, spec in scen["space"]:
+        s = effective_domain_size(spec)
+        if s is None:
+            return None
+        n *= s
+    return n
+
+
 def gen_space(r, finite=False, numeric=False, max_dims=4, tiny=False):
     n = r.randint(1, max_dims)
     space = []
